@@ -73,3 +73,30 @@ Fixpoint no_inline_named (j : json) : bool :=
   end.
 Definition doc_fields_ok (j : json) : bool :=
   match j with JObj fs => forallb (fun kv => no_inline_named (snd kv)) fs | _ => false end.
+
+(* ---- storing (round 2) --------------------------------------------------------------------------------------------- *)
+(* a later backend keeps every document of an earlier one *)
+Definition be_extends (be be' : backend) : Prop := forall k d, lookup k be = Some d -> lookup k be' = Some d.
+(* one entry per identifier *)
+Definition be_unique (be : backend) : Prop := NoDup (map fst be).
+(* Python object identity: two objects with the same id() are the same object *)
+Definition oid_coherent (U : pt -> Prop) : Prop := forall a b, U a -> U b -> pt_oid a = pt_oid b -> a = b.
+(* ... needed only between the objects of the temporary storage and the nodes of the tree being stored *)
+Definition heap_ok (tmp : list (string * pt)) (P : pt) : Prop :=
+  forall j q c, In (j, q) tmp -> In c (nodes P) -> pt_oid q = pt_oid c -> q = c.
+(* invariant of a PulseStorage: every object of the temporary storage is registered under its own identifier, belongs
+   to the universe U of live objects, and the backend holds the documents of all its named nodes *)
+Definition temp_ok (U : pt -> Prop) (tmp : list (string * pt)) (be : backend) : Prop :=
+  forall j q, In (j, q) tmp -> pt_id q = Some j /\ (forall x, In x (nodes q) -> U x) /\ be_holds q be.
+Definition hinv (U : pt -> Prop) (h : hstate) : Prop := temp_ok U (t0 h) (hbe h) /\ temp_ok U (t1 h) (hbe h).
+(* the objects that occur in a history *)
+Definition live (ops : list (nat * pt)) (x : pt) : Prop := exists w p, In (w, p) ops /\ In x (nodes p).
+
+(* ---- loading: object identity (round 2) ----------------------------------------------------------------------------- *)
+(* every named node of a cached object is itself the cache entry of its identifier *)
+Definition cache_closed (st : lstate) : Prop :=
+  forall i q, lookup i (l_cache st) = Some q ->
+  forall a k, In a (nodes q) -> pt_id a = Some k -> lookup k (l_cache st) = Some a.
+(* object identities handed out so far are below the allocation counter *)
+Definition cache_fresh (st : lstate) : Prop :=
+  forall i q a, lookup i (l_cache st) = Some q -> In a (nodes q) -> (pt_oid a < l_next st)%N.
